@@ -139,6 +139,21 @@ theorem failed_not_cached (i : Pool.TailIn) :
 example : (Pool.execTail ⟨.ok, true, true, false, true⟩).res = .fail := by decide   -- missing declared output
 example : (Pool.execTail ⟨.timeout, true, true, true, true⟩) = ⟨.fail, false⟩ := by decide
 
+/-- a target with several declared outputs fails (and writes no result) as soon as ANY of them is missing /
+    cannot be written, wherever it stands in the declaration order -/
+theorem missing_any_declared_output_fails (writers : List Bool) (h : false ∈ writers)
+    (recheck bin res : Bool) :
+    Pool.execTail ⟨.ok, recheck, bin, Pool.writeOutputsOk writers, res⟩ = ⟨.fail, false⟩ := by
+  have hw : Pool.writeOutputsOk writers = false := by
+    simp only [Pool.writeOutputsOk]
+    cases hall : writers.all id
+    · rfl
+    · have := List.all_eq_true.mp hall false h
+      simp at this
+  cases recheck <;> cases bin <;> cases res <;> simp [Pool.execTail, hw]
+
+example : Pool.execTail ⟨.ok, true, true, Pool.writeOutputsOk [false, true], true⟩ = ⟨.fail, false⟩ := by decide
+
 /-- The result that reaches the walker is a failure exactly for the four failure kinds of the
     property (and for storage errors); a cancellation is not a failure. -/
 theorem tail_failure_kinds (i : Pool.TailIn) :
